@@ -1,11 +1,13 @@
 /-
   C15 — Textual types and programs parse to the objects they denote.
   Property theorems only (model: PS/Model/Parse.lean, notation and ⟦·⟧: PS/Model/TyExpr.lean,
-  helper lemmas: PS/Proofs/ParseType.lean, PS/Proofs/ParseProg.lean).
+  helper lemmas: PS/Proofs/ParseType.lean, PS/Proofs/ParseProg.lean, and for the character
+  level PS/Proofs/ParseTypeChars.lean, PS/Proofs/ParseProgChars.lean).
 -/
 import PS.Proofs.ParseType
 import PS.Proofs.ParseProg
 import PS.Proofs.ParseTypeChars
+import PS.Proofs.ParseProgChars
 namespace PS.C15
 open PS TyExpr
 
@@ -109,12 +111,13 @@ example : render (fun _ => 0) (arrow (arrow (.var "a".toList) (.var "b".toList))
   primitive's name and does not start with `var`; a variable has the type given by the request.
 
   Full statement (holds on the model only under the guard, see `finding_duplicate_names`):
-    ∀ t, parseProgram dsl tr consts true (printProg t) = .ok t.
-  Proved here: the word level on characters (`C15_program_word`, `C15_program_leaf`) and the
+    ∀ t, parseProgram dsl tr consts true (printProg t) = .ok t        (`C15_program`).
+  Its parts: the word level on characters (`C15_program_word`, `C15_program_leaf`), the
   structure level (`C15_program_stack`: `parse_stack` rebuilds `t` from its words and the call
-  counts).  Not proved in Lean (compared on every enumerated program by the harness instead):
-  that `split(" ")` cuts `printProg t` into the words of `t` and that the bookkeeping loop
-  computes `calls t`. -/
+  counts), and — in PS/Proofs/ParseProgChars.lean — that `split(" ")` cuts `printProg t` into
+  the words of `t`, that the word parser maps them to `leaves t`, that the bookkeeping loop
+  computes `calls t`, and that the final re-print check succeeds when the constants table maps
+  printed forms to themselves (`goodConsts`). -/
 
 /-- **Word level (characters).**  A leaf satisfying the guard, printed and surrounded by any
     parentheses, is parsed back to itself, with its type, by `parse_program`'s word branch
@@ -165,6 +168,33 @@ theorem C15_program_type (dsl : Dsl) (tr : TyO) (consts : Consts) (t : Prog)
   obtain ⟨L', C', h1⟩ := C15_program_stack dsl tr consts t h fuel hf
   exact ⟨t, L', C', h1, rfl⟩
 
+/-- **Round trip, characters, end to end.**  For every DSL, type request, constants table and
+    every term `t` satisfying the decidable guard `goodProg` (any arity, partial applications,
+    function-typed variables as heads, calls as arguments, valued constants), parsing the
+    printed form of `t` returns `t` itself — hence with the same type: `split(" ")`, the word
+    parser, the call-count bookkeeping loop, `parse_stack` and (when `check` is set and the
+    constants table maps every printed value to itself, `goodConsts`) the final re-print
+    comparison all succeed.  Excluded by the guards: duplicated primitive names (C15-F5),
+    names / printed constants containing blanks or parentheses, primitives called `var<n>`,
+    constants without value. -/
+theorem C15_program (dsl : Dsl) (tr : TyO) (consts : Consts) (chk : Bool) (t : Prog)
+    (h : goodProg dsl tr consts t = true) (hc : chk = true → goodConsts consts = true) :
+    parseProgram dsl tr consts chk (printProg t) = .ok t := by
+  obtain ⟨l, ks⟩ := t
+  by_cases hl : l = .app
+  · subst hl
+    exact parseProgram_print_app dsl tr consts chk ks h hc
+  · have hks : ks = [] := by
+      cases l <;> first | exact absurd rfl hl | (simp [goodProg] at h; exact h.1)
+    subst hks
+    exact (C15_program_leaf dsl tr consts chk l h).1
+
+/-- the parsed program has the type of the original -/
+theorem C15_program_same_type (dsl : Dsl) (tr : TyO) (consts : Consts) (chk : Bool) (t : Prog)
+    (h : goodProg dsl tr consts t = true) (hc : chk = true → goodConsts consts = true) :
+    ∃ q, parseProgram dsl tr consts chk (printProg t) = .ok q ∧ progType q = progType t :=
+  ⟨t, C15_program dsl tr consts chk t h hc, rfl⟩
+
 /-! ### non-vacuity and the finding -/
 
 def tInt : TyO := TyO.prim "int".toList
@@ -187,6 +217,12 @@ example : goodProg exDsl exTr exConsts exProg = true ∧ goodConsts exConsts = t
   decide +kernel
 example : ∃ L' C', parseStack 3 (leaves exProg) (calls exProg) = .ok (exProg, L', C') :=
   C15_program_stack exDsl exTr exConsts exProg (by decide +kernel) 3 (by decide +kernel)
+
+-- the end-to-end round trip on the concrete text, with the re-print check
+example : parseProgram exDsl exTr exConsts true "(app (+ 5) (var0 var1))".toList = .ok exProg := by
+  have h := C15_program exDsl exTr exConsts true exProg (by decide +kernel) (fun _ => by decide +kernel)
+  have e : printProg exProg = "(app (+ 5) (var0 var1))".toList := by decide +kernel
+  rw [e] at h; exact h
 
 /-- **Finding C15-F5** (open).  With two primitives of the same name (what
     `instantiate_polymorphic_types` produces for `id : 'a -> 'a`), the parser resolves the name
